@@ -502,7 +502,21 @@ where
             });
 
         // Move entries out of the map — avoids Vec clone
-        let entries = entries_per_peer.remove(&peer_id).unwrap_or_default();
+        let mut entries = entries_per_peer.remove(&peer_id).unwrap_or_default();
+
+        // Raft §5.3: a request carries consecutive entries starting right after prev_log_index.
+        // When the legacy backlog was capped, the new entries no longer adjoin it — send only
+        // the contiguous prefix; the remainder is picked up by the following requests.
+        let mut expected_index = prev_log_index + 1;
+        let contiguous_len = entries
+            .iter()
+            .take_while(|e| {
+                let adjoins = e.index == expected_index;
+                expected_index += 1;
+                adjoins
+            })
+            .count();
+        entries.truncate(contiguous_len);
 
         debug!(
             "[Leader {} -> Follower {}] Replicating {} entries",
